@@ -1,14 +1,14 @@
 // append-to: src/tabs.rs
-// harness: k_tabs_new props=C18,C19 fns=Tabs::new kind=bounded tier=quick timeout=300 obligation=Tabs::new/E1 bound="cols <= 48"
-// harness: k_tabs_expand_0 props=C18 fns=Tabs::expand kind=bounded tier=quick timeout=600 obligation=Tabs::expand/E1 bound="start = 0, end <= 40"
-// harness: k_tabs_expand_7 props=C18 fns=Tabs::expand kind=bounded tier=quick timeout=600 obligation=Tabs::expand/E1 bound="start = 7, end <= 40"
-// harness: k_tabs_expand_8 props=C18 fns=Tabs::expand kind=bounded tier=quick timeout=600 obligation=Tabs::expand/E1 bound="start = 8, end <= 40"
-// harness: k_tabs_expand_9 props=C18 fns=Tabs::expand kind=bounded tier=quick timeout=600 obligation=Tabs::expand/E1 bound="start = 9, end <= 40"
-// harness: k_tabs_expand_16 props=C18 fns=Tabs::expand kind=bounded tier=quick timeout=600 obligation=Tabs::expand/E1 bound="start = 16, end <= 40"
-// harness: k_tabs_expand_17 props=C18 fns=Tabs::expand kind=bounded tier=thorough timeout=600 obligation=Tabs::expand/E1 bound="start = 17, end <= 40"
-// harness: k_tabs_expand_24 props=C18 fns=Tabs::expand kind=bounded tier=thorough timeout=600 obligation=Tabs::expand/E1 bound="start = 24, end <= 40"
-// harness: k_tabs_contract props=C18 fns=Tabs::contract kind=bounded tier=quick timeout=300 obligation=Tabs::contract/E1 bound="stops of width 40 plus one custom stop, pos <= 48"
-// harness: k_tabs_set_unset props=C18 fns=Tabs::set,Tabs::unset kind=bounded tier=quick timeout=600 obligation=Tabs::set/E1,E2+Tabs::unset/E1,E2 bound="stops of width 33 plus one custom stop, pos <= 40"
+// harness: k_tabs_new props=C18,C05,C19 fns=Tabs::new kind=bounded tier=quick timeout=300 obligation=Tabs::new/E1 bound="cols <= 48"
+// harness: k_tabs_expand_0 props=C18,C05 fns=Tabs::expand kind=bounded tier=quick timeout=600 obligation=Tabs::expand/E1 bound="start = 0, end <= 40"
+// harness: k_tabs_expand_7 props=C18,C05 fns=Tabs::expand kind=bounded tier=quick timeout=600 obligation=Tabs::expand/E1 bound="start = 7, end <= 40"
+// harness: k_tabs_expand_8 props=C18,C05 fns=Tabs::expand kind=bounded tier=quick timeout=600 obligation=Tabs::expand/E1 bound="start = 8, end <= 40"
+// harness: k_tabs_expand_9 props=C18,C05 fns=Tabs::expand kind=bounded tier=quick timeout=600 obligation=Tabs::expand/E1 bound="start = 9, end <= 40"
+// harness: k_tabs_expand_16 props=C18,C05 fns=Tabs::expand kind=bounded tier=quick timeout=600 obligation=Tabs::expand/E1 bound="start = 16, end <= 40"
+// harness: k_tabs_expand_17 props=C18,C05 fns=Tabs::expand kind=bounded tier=thorough timeout=600 obligation=Tabs::expand/E1 bound="start = 17, end <= 40"
+// harness: k_tabs_expand_24 props=C18,C05 fns=Tabs::expand kind=bounded tier=thorough timeout=600 obligation=Tabs::expand/E1 bound="start = 24, end <= 40"
+// harness: k_tabs_contract props=C18,C05 fns=Tabs::contract kind=bounded tier=quick timeout=300 obligation=Tabs::contract/E1 bound="stops of width 40 plus one custom stop, pos <= 48"
+// harness: k_tabs_set_unset props=C18,C05 fns=Tabs::set,Tabs::unset kind=bounded tier=quick timeout=600 obligation=Tabs::set/E1,E2+Tabs::unset/E1,E2 bound="stops of width 33 plus one custom stop, pos <= 40"
 // harness: k_tabs_after_before props=C18,C05 fns=Tabs::after,Tabs::before kind=bounded tier=quick timeout=600 obligation=Tabs::after/E1+Tabs::before/E1 bound="stops of width 41 plus one custom stop, pos <= 48, n <= 4"
 //
 // Kani units for src/tabs.rs: the contracts that Verus assumes for these functions
